@@ -454,6 +454,7 @@ class FnAnalysis:
         self.params = {}      # name -> var id
         self.param_names = []
         self.read_filled = {}
+        self.whole_alias = {}
         self.var_names = {}
         self.var_types = {}
         self.closure_depth = 0
@@ -585,6 +586,8 @@ class FnAnalysis:
             if al is not None:
                 # `let x = y` / `let x = &mut y`: x *is* the stream y (async fns rebind every parameter this way)
                 self.alias[pat["var"]] = al
+                if al in st.env and _strip_mut(st.env[al]) == _strip_mut(val):
+                    self.whole_alias[pat["var"]] = al          # … and it denotes the whole object, not a part reached through a pattern
                 st.under[pat["var"]] = st.under.get(al, frozenset([al]))
             else:
                 st.under[pat["var"]] = frozenset([pat["var"]]) | self.under_of_src(st, src, pat["ty"])
@@ -794,6 +797,11 @@ class FnAnalysis:
 
     def e_Local(self, e, st):
         v = st.env.get(e["var"])
+        if e["var"] in self.whole_alias and _is_ref_ty(self.var_types.get(e["var"], "") or ""):
+            # a reference bound to a local object (`&mut self` of a method evaluated in place, `let r = &mut x`) sees the object's current state
+            tgt = self.canon(e["var"])
+            if tgt != e["var"] and tgt in st.env and not _is_ref_ty(self.var_types.get(tgt, "") or ""):
+                v = st.env[tgt]
         if v is None:
             v = V("var:" + e["var"])
         return [(st, v)]
@@ -900,6 +908,12 @@ class FnAnalysis:
         if lhs["k"] == "Local":
             st.env[lhs["var"]] = v
             self.ev(st, "assign", node, var=lhs["var"], name=lhs["name"], place=None, value=v)
+            return [(st, ("unit",))]
+        if lhs["k"] == "Un" and lhs.get("op") == "*" and lhs["e"]["k"] == "Local" and lhs["e"]["var"] in st.env and is_int_ty(lhs.get("ty") or ""):
+            # `*x = v` through a reference to an integer (the state of a `scan`, a `&mut u64` parameter of a helper evaluated in place): the
+            # reference is transparent in values, so the variable now denotes v
+            st.env[lhs["e"]["var"]] = v
+            self.ev(st, "assign", node, var=lhs["e"]["var"], name=lhs["e"]["name"], place=None, value=v)
             return [(st, ("unit",))]
         # field / index place: evaluate the place for its events, then record the store
         for s, pv in self.eval(lhs, st):
@@ -1240,7 +1254,8 @@ class FnAnalysis:
                 continue
             arms = list(enumerate(e["arms"]))
             # a visible constructor value selects its arm
-            verdicts = [_ctor_match(v, a["pat"]) if a["guard"] is None else None for _, a in arms]
+            # (a guarded arm is never certain, but a pattern that cannot match rules it out whatever the guard says)
+            verdicts = [_ctor_match(v, a["pat"]) if a["guard"] is None else (False if _ctor_match(v, a["pat"]) is False else None) for _, a in arms]
             if True in verdicts:
                 # the first arm that certainly matches ends the search; earlier arms that may match stay feasible
                 t_ = verdicts.index(True)
@@ -1275,7 +1290,7 @@ class FnAnalysis:
         return outs
 
     # -- loops
-    def loop_common(self, e, st, pre_bind, cond=None, has_zero=True, iter_term=None):
+    def loop_common(self, e, st, pre_bind, cond=None, has_zero=True, iter_term=None, body_hook=None):
         lid = e.get("id")
         body = e["body"]
         assigned, mutated, mutated_streams = _assigned_in(body, self)
@@ -1318,7 +1333,9 @@ class FnAnalysis:
         for s0 in starts:
             if pre_bind is not None:
                 pre_bind(s0)
-            for s2, _ in self.eval(body, s0):
+            for s2, bv_ in self.eval(body, s0):
+                if body_hook is not None and s2.ctrl is None:
+                    body_hook(s2, bv_)
                 # record what the havoc'd variables were assigned in this iteration (dependence sources)
                 for var in assigned:
                     atom = V("loop%s:%s" % (lid, self.var_names.get(var, var)))
@@ -1397,6 +1414,31 @@ class FnAnalysis:
                         elif isinstance(r_, tuple) and r_ and r_[0] == "call" and r_[1] == "core::option::Option::None":
                             return ("elem", itv, lid)
                     return r_
+        if isinstance(v, tuple) and v and v[0] == "call" and v[1].endswith("Iterator::scan") and len(v[2]) == 3 and isinstance(v[2][2], tuple) and v[2][2][0] == "clos":
+            # `base.scan(init, |state, x| { ..; Some(y) })` driven by a `for`: y is computed from the element of base and a state carried from
+            # one iteration to the next (a loop variable like any other: its sources are the initial value and what the closure leaves in it)
+            node = getattr(self, "clos_nodes", {}).get(v[2][2][1])
+            if node is not None and len(node["params"]) == 2 and node["params"][0].get("k") == "Bind":
+                inner = self.element_of(st, v[2][0], lid)
+                atom = V("loop%s:%s" % (lid, node["params"][0].get("name") or "scan_state"))
+                self.havoc_src.setdefault(atom, set()).add(v[2][1])
+                sub = st.fork()
+                saved_paths = self.paths
+                self.paths = []
+                try:
+                    self.bind(sub, node["params"][0], atom, None)
+                    self.bind(sub, node["params"][1], inner, None)
+                    outs = [(s_, val) for s_, val in self.eval(node["body"], sub) if s_.ctrl is None]
+                    clean = not self.paths
+                finally:
+                    self.paths = saved_paths
+                if clean and len(outs) == 1:
+                    s_, r_ = outs[0]
+                    stv = s_.env.get(node["params"][0]["var"])
+                    if stv is not None and stv != atom:
+                        self.havoc_src[atom].add(stv)
+                    if isinstance(r_, tuple) and r_ and r_[0] == "call" and r_[1] == "core::option::Option::Some" and len(r_[2]) == 1 and r_[3] is None:
+                        return r_[2][0]
         if isinstance(v, tuple) and v and v[0] == "call" and v[1].endswith("::zip") and len(v[2]) == 2:
             return ("tup", (self.element_of(st, v[2][0], lid), self.element_of(st, v[2][1], lid)))
         if isinstance(v, tuple) and v and v[0] == "call" and v[1].endswith("::chain") and len(v[2]) == 2:
@@ -1421,6 +1463,11 @@ class FnAnalysis:
             inner = inner["e"]
         return inner is not None and inner["k"] in ("Call", "MCall") and (inner.get("fn") in getattr(self, "_inlinable", ()) or
                                                                           (inner.get("fn") or "").endswith(("Option::<T>::ok_or", "Option::<T>::ok_or_else")))
+
+    def _local_factory(self, fn):
+        """a local function that hands out a boxed codec/stream around the stream it is given (the codec factories, wherever they live)"""
+        g = self.facts.fn(fn)
+        return g is not None and "Box<dyn" in (g.get("ret") or "") and any(w in (g.get("ret") or "") for w in ("Read", "Write"))
 
     def can_inline(self, fn):
         if len(self.frames) >= 3 or fn in self.frames or fn == self.fn["path"]:
@@ -1505,6 +1552,46 @@ class FnAnalysis:
                     self.bind(s0, fake["pat"], self.element_of(s0, itv, lid), None)
                 for s2, _ in self.loop_common(fake, s, pre, iter_term=itv):
                     outs.append((s2, ("call", "core::result::Result::Ok", (("unit",),), None) if fn0.endswith("try_for_each") else ("unit",)))
+            return outs
+        rc = e.get("recv") or {}
+        if fn0.endswith("Iterator::collect") and not e["args"] and rc.get("k") == "MCall" and (rc.get("fn") or "").endswith("Iterator::map") and len(rc.get("args") or []) == 1 \
+                and rc["args"][0]["k"] == "Closure" and len(rc["args"][0]["params"]) == 1 and "Vec<" in (e.get("ty") or ""):
+            # `iter.map(|x| body).collect::<Vec<_>>()` / `…collect::<Result<Vec<_>, _>>()`: a loop over the iterator that pushes what the closure yields
+            # (for the Result form the payload of its Ok; a `?` inside the closure leaves the loop with the error, which the caller's `?` hands on)
+            clos = rc["args"][0]
+            is_result = (e.get("ty") or "").startswith("core::result::Result<")
+            outs = []
+            PUSH = "alloc::vec::Vec::<T, A>::push"
+            for s, itv in self.eval(rc["recv"], st):
+                if s.ctrl is not None:
+                    outs.append((s, ("unit",)))
+                    continue
+                fake = {"k": "For", "id": clos.get("id"), "loc": e.get("loc"), "body": clos["body"], "pat": clos["params"][0], "iter": rc["recv"], "ty": "()"}
+                lid = fake["id"]
+                vecvar = "collect:%s" % e.get("id")
+                s.env[vecvar] = ("call", "alloc::vec::Vec::<T>::new", (), self.fresh())
+                self.var_types[vecvar] = "alloc::vec::Vec<T>"
+                self.var_names[vecvar] = "collected"
+
+                def pre(s0, itv=itv, lid=lid, fake=fake, vecvar=vecvar):
+                    s0.env[vecvar] = ("mut", s0.env[vecvar], "loop%s" % lid)
+                    self.bind(s0, fake["pat"], self.element_of(s0, itv, lid), None)
+
+                def hook(s2, bv, vecvar=vecvar, node=e):
+                    pay = bv
+                    t_ = bv
+                    while isinstance(t_, tuple) and t_ and t_[0] == "mut":
+                        t_ = t_[1]
+                    if is_result and isinstance(t_, tuple) and t_ and t_[0] == "call" and t_[3] is None and t_[1] == "core::result::Result::Ok" and len(t_[2]) == 1:
+                        pay = t_[2][0]
+                    vec_now = s2.env[vecvar]
+                    self.ev(s2, "call", node, fn=PUSH, resolved=None, args=(vec_now, pay), arg_nodes=[node, node], recv=None,
+                            ret=("unit",), effects=(), tys=["&mut alloc::vec::Vec<T>", ""], targs=None, pos_before={}, pos_after={}, argkeys=[frozenset(), frozenset()], direct=None)
+                    s2.vers += 1
+                    s2.env[vecvar] = ("mut", vec_now, s2.vers)
+                for s2, _ in self.loop_common(fake, s, pre, iter_term=itv, body_hook=hook):
+                    v_ = s2.env.get(vecvar)
+                    outs.append((s2, ("call", "core::result::Result::Ok", (v_,), None) if is_result else v_))
             return outs
         exprs = [e["recv"]] + e["args"]
         outs = []
@@ -1909,7 +1996,7 @@ class FnAnalysis:
                 self.bump(st, wrapped, None, None)
             effects.append((FLUSH_FNS[fn], recv_keys))
             ret = ("call", fn, tuple(vals), self.fresh())
-        elif fn in WRAP_FNS or is_codec_ctor(fn):
+        elif fn in WRAP_FNS or is_codec_ctor(fn) or self._local_factory(fn):
             pass
         else:
             summ = self.summaries.get(fn)
@@ -2118,6 +2205,12 @@ def _streamish_ty(t):
     if not t.startswith("&mut") and "impl " not in t and "Box<dyn" not in t:
         return False
     return True
+
+
+def _strip_mut(t):
+    while isinstance(t, tuple) and t and t[0] == "mut":
+        t = t[1]
+    return t
 
 
 def _is_ref_ty(t):
